@@ -307,7 +307,7 @@ func (x *Exec) binop(s *State, op token.Token, l, r *Term, lt, rt types.Type, p 
 		}
 	case token.SHR:
 		if r.rat != nil && r.rat.IsInt() {
-			return App("div", SInt, l, IntLitBig(pow2(r.rat.Num().Int64())))
+			return IntDivMod("div", l, IntLitBig(pow2(r.rat.Num().Int64())))
 		}
 	case token.AND:
 		if l.rat != nil && r.rat != nil {
@@ -318,7 +318,7 @@ func (x *Exec) binop(s *State, op token.Token, l, r *Term, lt, rt types.Type, p 
 			if m := pr[1].rat; m != nil && m.IsInt() {
 				mm := new(big.Int).Add(m.Num(), big.NewInt(1))
 				if mm.Sign() > 0 && new(big.Int).And(mm, m.Num()).Sign() == 0 {
-					return Ite(Cmp(">=", pr[0], IntLit(0)), App("mod", SInt, pr[0], IntLitBig(mm)), x.uf("bitand", SInt, l, r))
+					return Ite(Cmp(">=", pr[0], IntLit(0)), IntDivMod("mod", pr[0], IntLitBig(mm)), x.uf("bitand", SInt, l, r))
 				}
 			}
 		}
@@ -345,11 +345,11 @@ func (x *Exec) binop(s *State, op token.Token, l, r *Term, lt, rt types.Type, p 
 func (x *Exec) intDiv(a, b *Term) *Term {
 	if b.rat != nil && b.rat.Sign() > 0 {
 		// a >= 0: div; a < 0: -((-a) div b)
-		return Ite(Cmp(">=", a, IntLit(0)), App("div", SInt, a, b), Neg(App("div", SInt, Neg(a), b)))
+		return Ite(Cmp(">=", a, IntLit(0)), IntDivMod("div", a, b), Neg(IntDivMod("div", Neg(a), b)))
 	}
 	absA := Ite(Cmp(">=", a, IntLit(0)), a, Neg(a))
 	absB := Ite(Cmp(">=", b, IntLit(0)), b, Neg(b))
-	q := App("div", SInt, absA, absB)
+	q := IntDivMod("div", absA, absB)
 	same := Eq(Cmp(">=", a, IntLit(0)), Cmp(">", b, IntLit(0)))
 	return Ite(same, q, Neg(q))
 }
@@ -371,9 +371,9 @@ func (x *Exec) wrapInt(v *Term, t types.Type) *Term {
 	}
 	size := new(big.Int).Add(big.NewInt(hi-lo), big.NewInt(1))
 	if lo == 0 {
-		return App("mod", SInt, v, IntLitBig(size))
+		return IntDivMod("mod", v, IntLitBig(size))
 	}
-	return Arith("+", App("mod", SInt, Arith("-", v, IntLit(lo)), IntLitBig(size)), IntLit(lo))
+	return Arith("+", IntDivMod("mod", Arith("-", v, IntLit(lo)), IntLitBig(size)), IntLit(lo))
 }
 
 func (x *Exec) cmpTerms(op string, l, r *Term, t types.Type) *Term {
@@ -449,7 +449,10 @@ func (x *Exec) strByte(str, i *Term) *Term {
 func (x *Exec) evalUnary(s *State, n *ast.UnaryExpr) *Term {
 	switch n.Op {
 	case token.NOT:
-		return Not(x.evalCond(s, n.X))
+		x.goalMode = !x.goalMode
+		v := x.evalCond(s, n.X)
+		x.goalMode = !x.goalMode
+		return Not(v)
 	case token.SUB:
 		return x.wrapInt(Neg(x.eval(s, n.X)), x.typeOf(n.X))
 	case token.ADD:
